@@ -641,3 +641,55 @@ def check_terminator(pc_, prop):
         detail.update({'verdict': 'unknown', 'goal': label, 'reason': str(m)[:200]})
     ob.status, ob.detail, ob.seconds = status, detail, secs
     return ob
+
+
+# ------------------------------------------------------------------------------------------- lexical independence
+# The induction treats every spelled terminal as ONE fixed token sequence (terminal_tokens: the real lexer on the
+# spelling alone).  That is only right if the lexer cannot fuse a terminal with the token that follows it in a derivation.
+# follow_sets() gives, for every terminal, the terminals that can follow it in a sentential form of the grammar.
+
+def follow_sets():
+    rules, _fam = build_grammar()
+    rules = list(rules) + [(l, r) for l, r in parse_rules(TOPLEVEL)]
+    nts = {l for l, _ in rules}
+    first = {n: set() for n in nts}
+    nullable = set()
+    changed = True
+    while changed:
+        changed = False
+        for l, r in rules:
+            allnull = True
+            for s in r:
+                add = first[s] if s in nts else {s}
+                if not add <= first[l]:
+                    first[l] |= add
+                    changed = True
+                if not (s in nts and s in nullable):
+                    allnull = False
+                    break
+            if allnull and l not in nullable:
+                nullable.add(l)
+                changed = True
+    follow = {}
+    changed = True
+    nt_follow = {n: set() for n in nts}
+    while changed:
+        changed = False
+        for l, r in rules:
+            for i, s in enumerate(r):
+                acc = set()
+                rest_null = True
+                for t in r[i + 1:]:
+                    acc |= first[t] if t in nts else {t}
+                    if not (t in nts and t in nullable):
+                        rest_null = False
+                        break
+                if rest_null:
+                    acc |= nt_follow[l]
+                tgt = nt_follow[s] if s in nts else follow.setdefault(s, set())
+                if not acc <= tgt:
+                    tgt |= acc
+                    changed = True
+    # what follows the LAST terminal of a non-terminal: terminals at the end of a production inherit the lhs' follow set
+    # (handled above through nt_follow); resolve terminals only
+    return follow, first, nullable
